@@ -27,7 +27,7 @@ pub fn check_shards(c: &ShardCase) -> CaseResult {
     let mut reference = c.h.clone();
     reference.cfg.shards = 1;
     reference.cfg.voting_shards = 1;
-    let base = run_monitored(&reference, Flags { c01: false, c03: false, c13: false, margins: true })?;
+    let base = run_monitored(&reference, Flags { c01: false, c03: false, c13: false, margins: true, group_batches: false })?;
     let mut varied = c.h.clone();
     varied.cfg.shards = c.shards;
     varied.cfg.voting_shards = c.voting_shards;
@@ -56,7 +56,7 @@ pub fn check_shards(c: &ShardCase) -> CaseResult {
         let delays = c.delays.iter().map(|(occ, us)| ("store.cmd.end", *occ as u32, *us as u32)).collect();
         Some(sched::install(Plan { steps, delays, gate_timeout_ms: 200 }))
     };
-    let var = run_monitored_with(&varied, Flags { c01: false, c03: false, c13: false, margins: false }, &mut hook)?;
+    let var = run_monitored_with(&varied, Flags { c01: false, c03: false, c13: false, margins: false, group_batches: false }, &mut hook)?;
     ensure!(base.records.len() == var.records.len(), "shards-call-count", "number of calls differs between 1 shard and {} shards", shards);
     let cut = (0..base.records.len()).find(|i| base.call_margins.get(*i).map(|x| x.1).unwrap_or(0.0) < MARGIN).unwrap_or(base.records.len());
     let cut_op = base.records.get(cut).map(|x| x.0).unwrap_or(usize::MAX);
